@@ -1139,271 +1139,445 @@ impl<'tcx> Interp<'tcx> {
         let mut work: Vec<State<'tcx>> = vec![init];
         while let Some(mut st) = work.pop() {
             loop {
-                self.steps += 1;
-                if self.steps > MAX_STEPS || self.outcomes.len() + work.len() > MAX_PATHS {
-                    self.undecided = Some("budget exceeded (steps or paths)".into());
+                if self.undecided.is_some() {
                     return;
                 }
-                let (body, bb, stmt, inst) = {
-                    let fr = st.frames.last().unwrap();
-                    (fr.body, fr.bb, fr.stmt, fr.inst)
-                };
-                let data = &body.basic_blocks[bb];
-                if stmt < data.statements.len() {
-                    st.frames.last_mut().unwrap().stmt += 1;
-                    match &data.statements[stmt].kind {
-                        StatementKind::Assign(b) => {
-                            let (place, rv) = &**b;
-                            let dty = self.mono(inst, place.ty(&body.local_decls, self.tcx).ty);
-                            let v = self.eval_rvalue(&mut st, rv, dty);
-                            match self.resolve_place(&st, place) {
-                                PlaceRes::At(c, p) => {
-                                    if !Self::write(&mut st, c, &p, v) {
-                                        self.undecided = Some(format!("write to unshaped place {:?}", place));
-                                        return;
-                                    }
-                                }
-                                _ => {
-                                    self.undecided = Some(format!("write through unknown place {:?}", place));
-                                    return;
-                                }
-                            }
-                        }
-                        StatementKind::SetDiscriminant { place, variant_index } => {
-                            if let PlaceRes::At(c, p) = self.resolve_place(&st, place) {
-                                let cur = Self::read(&st, c, &p);
-                                let fields = match cur {
-                                    Val::Enum { fields, .. } => fields,
-                                    _ => Vec::new(),
-                                };
-                                Self::write(&mut st, c, &p, Val::Enum { variant: variant_index.as_u32(), fields });
-                            }
-                        }
-                        _ => {}
-                    }
-                    continue;
+                if self.outcomes.len() + work.len() > MAX_PATHS {
+                    self.undecided = Some("budget exceeded (paths)".into());
+                    return;
                 }
-                // terminator
-                let term = data.terminator();
-                match &term.kind {
-                    TerminatorKind::Goto { target }
-                    | TerminatorKind::FalseEdge { real_target: target, .. }
-                    | TerminatorKind::FalseUnwind { real_target: target, .. }
-                    | TerminatorKind::Drop { target, .. } => {
-                        let fr = st.frames.last_mut().unwrap();
-                        fr.bb = *target;
-                        fr.stmt = 0;
-                    }
-                    TerminatorKind::Return => {
-                        let fr = st.frames.pop().unwrap();
-                        let rv = st.cells[fr.base].clone();
-                        match fr.ret {
-                            None => {
-                                let r = self.render(&st, &rv, 0);
-                                self.finish(&st, "ret", vec![("v", r)]);
-                                break;
-                            }
-                            Some(((c, p), target)) => {
-                                Self::write(&mut st, c, &p, rv);
-                                let caller = st.frames.last_mut().unwrap();
-                                caller.bb = target;
-                                caller.stmt = 0;
-                            }
-                        }
-                    }
-                    TerminatorKind::Unreachable => {
-                        self.finish(&st, "unreachable", vec![]);
+                match self.step(&mut st) {
+                    Step::Cont => {}
+                    Step::Fork(v) => {
+                        work.extend(v);
                         break;
                     }
-                    TerminatorKind::Assert { cond, expected, msg, target, .. } => {
-                        let c = self.eval_operand(&st, cond);
-                        let bit = match &c {
-                            Val::Int { bits, .. } if bits.len() == 1 => Self::assumed(&st, bits[0]),
-                            _ => Bit::T,
-                        };
-                        let want = if *expected { Bit::O } else { Bit::Z };
-                        let kind = Self::assert_kind_name(msg);
-                        let site = format!("{}@{}:bb{}", kind, self.tcx.def_path_str(inst.def_id()), bb.as_usize());
-                        if bit == want {
-                            // decided true
-                        } else if bit.is_const() {
-                            self.finish(&st, "panic", vec![("why", esc("assert")), ("what", esc(&site)), ("und", "0".into())]);
-                            break;
-                        } else {
-                            // undecided: both outcomes are possible as far as the analysis knows
-                            self.finish(&st, "panic", vec![("why", esc("assert")), ("what", esc(&site)), ("und", "1".into())]);
-                            st.mayfail.push(esc(&site));
-                            if let Bit::S(s, k, n) = bit {
-                                st.assume.push(((s, k), *expected != n));
-                            }
-                        }
-                        let fr = st.frames.last_mut().unwrap();
-                        fr.bb = *target;
-                        fr.stmt = 0;
-                    }
-                    TerminatorKind::SwitchInt { discr, targets } => {
-                        let d = self.eval_operand(&st, discr);
-                        let bits: Vec<Bit> = match self.as_int(&d) {
-                            Some((_, b)) => b.iter().map(|x| Self::assumed(&st, *x)).collect(),
-                            None => {
-                                // an unknown discriminant: explore every successor
-                                let rendered = self.render(&st, &d, 0);
-                                let mut succ: Vec<(String, BasicBlock)> =
-                                    targets.iter().map(|(v, t)| (v.to_string(), t)).collect();
-                                succ.push(("otherwise".into(), targets.otherwise()));
-                                for (label, t) in succ.into_iter() {
-                                    let mut s2 = st.clone();
-                                    s2.conds.push(obj(&[("sw", rendered.clone()), ("case", esc(&label))]));
-                                    let fr = s2.frames.last_mut().unwrap();
-                                    fr.bb = t;
-                                    fr.stmt = 0;
-                                    work.push(s2);
-                                }
-                                break;
-                            }
-                        };
-                        if let Some(v) = const_of(&bits) {
-                            let t = targets.target_for_value(v);
-                            let fr = st.frames.last_mut().unwrap();
-                            fr.bb = t;
-                            fr.stmt = 0;
-                            continue;
-                        }
-                        let rendered = self.render(&st, &Val::Int { signed: false, bits: bits.clone() }, 0);
-                        // feasible listed targets: constant bits must agree
-                        let feasible = |v: u128| -> bool {
-                            if bits.len() < 128 && v >> bits.len() != 0 {
-                                return false;
-                            }
-                            bits.iter().enumerate().all(|(i, b)| match b {
-                                Bit::Z => (v >> i) & 1 == 0,
-                                Bit::O => (v >> i) & 1 == 1,
-                                _ => true,
-                            })
-                        };
-                        let listed: Vec<(u128, BasicBlock)> = targets.iter().filter(|(v, _)| feasible(*v)).collect();
-                        // is `otherwise` reachable?  count the values the operand can take
-                        let unknown = bits.iter().filter(|b| !b.is_const()).count();
-                        let mut otherwise_reachable = true;
-                        if unknown <= 20 {
-                            let possible = 1u128 << unknown;
-                            let mut distinct: Vec<u128> = listed.iter().map(|(v, _)| *v).collect();
-                            distinct.sort();
-                            distinct.dedup();
-                            if distinct.len() as u128 == possible {
-                                otherwise_reachable = false;
-                                self.notes.push(obj(&[
-                                    ("note", esc("switch_otherwise_unreachable")),
-                                    ("fn", esc(&self.tcx.def_path_str(inst.def_id()))),
-                                    ("free_bits", unknown.to_string()),
-                                    ("listed", distinct.len().to_string()),
-                                    ("on", rendered.clone()),
-                                ]));
-                            }
-                        }
-                        for (v, t) in listed.iter() {
-                            let mut s2 = st.clone();
-                            s2.conds.push(obj(&[("sw", rendered.clone()), ("eq", esc(&v.to_string()))]));
-                            if bits.len() == 1 {
-                                if let Bit::S(s, k, n) = bits[0] {
-                                    s2.assume.push(((s, k), (*v == 1) != n));
-                                }
-                            }
-                            let fr = s2.frames.last_mut().unwrap();
-                            fr.bb = *t;
-                            fr.stmt = 0;
-                            work.push(s2);
-                        }
-                        if otherwise_reachable {
-                            let mut s2 = st.clone();
-                            let ne: Vec<String> = listed.iter().map(|(v, _)| esc(&v.to_string())).collect();
-                            s2.conds.push(obj(&[("sw", rendered.clone()), ("ne", arr(&ne))]));
-                            if bits.len() == 1 && listed.len() == 1 {
-                                if let Bit::S(s, k, n) = bits[0] {
-                                    s2.assume.push(((s, k), (listed[0].0 != 1) != n));
-                                }
-                            }
-                            let fr = s2.frames.last_mut().unwrap();
-                            fr.bb = targets.otherwise();
-                            fr.stmt = 0;
-                            work.push(s2);
-                        }
-                        break;
-                    }
-                    TerminatorKind::Call { func, args, destination, target, .. } => {
-                        let fty = self.mono(inst, func.ty(&body.local_decls, self.tcx));
-                        let argv: Vec<Val> = args.iter().map(|a| self.eval_operand(&st, &a.node)).collect();
-                        let dty = self.mono(inst, destination.ty(&body.local_decls, self.tcx).ty);
-                        let (callee_name, resolved) = match fty.kind() {
-                            ty::FnDef(did, gargs) => {
-                                let r = Instance::try_resolve(self.tcx, self.env, *did, gargs).ok().flatten();
-                                let name = match r {
-                                    Some(i) => self.tcx.def_path_str_with_args(i.def_id(), i.args),
-                                    None => self.tcx.def_path_str_with_args(*did, gargs),
-                                };
-                                (name, r)
-                            }
-                            _ => ("<indirect>".to_string(), None),
-                        };
-                        let depth = st.frames.len();
-                        let rendered_args: Vec<String> = argv.iter().map(|a| self.render(&st, a, 0)).collect();
-                        if target.is_none() {
-                            self.finish(
-                                &st,
-                                "panic",
-                                vec![("why", esc("call")), ("what", esc(&callee_name)), ("args", arr(&rendered_args)), ("und", "0".into())],
-                            );
-                            break;
-                        }
-                        let target = target.unwrap();
-                        let mut inline: Option<Instance<'tcx>> = None;
-                        if let Some(ci) = resolved {
-                            if let InstanceKind::Item(cd) = ci.def {
-                                if self.tcx.is_mir_available(cd)
-                                    && depth < MAX_DEPTH
-                                    && !(self.opaque_depth0 && depth == 1)
-                                    && !self.policy_opaque(cd)
-                                    && self.tcx.intrinsic(cd).is_none()
-                                {
-                                    inline = Some(ci);
-                                }
-                            }
-                        }
-                        match self.resolve_place(&st, destination) {
-                            PlaceRes::At(dc, dp) => {
-                                if let Some(ci) = inline {
-                                    let cbody = self.tcx.instance_mir(ci.def);
-                                    self.inlined.insert(callee_name.clone());
-                                    self.push_frame(&mut st, ci, cbody, argv, Some(((dc, dp), target)));
-                                } else {
-                                    let n = st.ncalls;
-                                    st.ncalls += 1;
-                                    st.calls.push(obj(&[
-                                        ("n", n.to_string()),
-                                        ("callee", esc(&callee_name)),
-                                        ("args", arr(&rendered_args)),
-                                    ]));
-                                    let rv = self.materialize(&mut st, dty, &format!("c{}", n), 0);
-                                    Self::write(&mut st, dc, &dp, rv);
-                                    let fr = st.frames.last_mut().unwrap();
-                                    fr.bb = target;
-                                    fr.stmt = 0;
-                                }
-                            }
-                            _ => {
-                                self.undecided = Some("call destination is not a tracked place".into());
-                                return;
-                            }
-                        }
-                    }
-                    other => {
-                        self.undecided = Some(format!("unsupported terminator {:?}", std::mem::discriminant(other)));
-                        return;
-                    }
+                    Step::End => break,
                 }
             }
         }
     }
+
+    /// successors of a block through normal control flow
+    fn successors(body: &Body<'tcx>, bb: BasicBlock) -> Vec<BasicBlock> {
+        match &body.basic_blocks[bb].terminator().kind {
+            TerminatorKind::Goto { target }
+            | TerminatorKind::FalseEdge { real_target: target, .. }
+            | TerminatorKind::FalseUnwind { real_target: target, .. }
+            | TerminatorKind::Drop { target, .. }
+            | TerminatorKind::Assert { target, .. } => vec![*target],
+            TerminatorKind::SwitchInt { targets, .. } => targets.all_targets().to_vec(),
+            TerminatorKind::Call { target: Some(t), .. } => vec![*t],
+            _ => Vec::new(),
+        }
+    }
+
+    fn reach(body: &Body<'tcx>, from: BasicBlock) -> Vec<bool> {
+        let mut seen = vec![false; body.basic_blocks.len()];
+        let mut stack = vec![from];
+        while let Some(b) = stack.pop() {
+            if seen[b.as_usize()] {
+                continue;
+            }
+            seen[b.as_usize()] = true;
+            stack.extend(Self::successors(body, b));
+        }
+        seen
+    }
+
+    /// first block common to both arms of a two-way branch (the join of an if/else diamond)
+    fn find_join(body: &Body<'tcx>, a: BasicBlock, b: BasicBlock) -> Option<BasicBlock> {
+        let ra = Self::reach(body, a);
+        let rb = Self::reach(body, b);
+        let cands: Vec<usize> = (0..ra.len()).filter(|i| ra[*i] && rb[*i]).collect();
+        for &c in cands.iter() {
+            let rc = Self::reach(body, BasicBlock::from_usize(c));
+            if cands.iter().all(|x| rc[*x]) {
+                return Some(BasicBlock::from_usize(c));
+            }
+        }
+        None
+    }
+
+    /// run one arm deterministically until `join` is reached in the frame at `depth`
+    fn run_until(&mut self, mut st: State<'tcx>, depth: usize, join: BasicBlock) -> Option<State<'tcx>> {
+        let mut guard = 0;
+        loop {
+            guard += 1;
+            if guard > 20_000 || self.undecided.is_some() {
+                return None;
+            }
+            if st.frames.len() == depth {
+                let fr = st.frames.last().unwrap();
+                if fr.bb == join && fr.stmt == 0 {
+                    return Some(st);
+                }
+            }
+            if st.frames.len() < depth {
+                return None;
+            }
+            match self.step(&mut st) {
+                Step::Cont => {}
+                _ => return None,
+            }
+        }
+    }
+
+    fn merge_val(a: &Val, b: &Val, c: Bit) -> Val {
+        match (a, b) {
+            (Val::Int { signed, bits: x }, Val::Int { bits: y, .. }) if x.len() == y.len() => Val::Int {
+                signed: *signed,
+                bits: x
+                    .iter()
+                    .zip(y.iter())
+                    .map(|(p, q)| {
+                        if p == q {
+                            *p
+                        } else if *p == Bit::O && *q == Bit::Z {
+                            c
+                        } else if *p == Bit::Z && *q == Bit::O {
+                            c.not()
+                        } else {
+                            Bit::T
+                        }
+                    })
+                    .collect(),
+            },
+            (Val::Struct(x), Val::Struct(y)) if x.len() == y.len() => {
+                Val::Struct(x.iter().zip(y.iter()).map(|(p, q)| Self::merge_val(p, q, c)).collect())
+            }
+            (Val::Array(x), Val::Array(y)) if x.len() == y.len() => {
+                Val::Array(x.iter().zip(y.iter()).map(|(p, q)| Self::merge_val(p, q, c)).collect())
+            }
+            (Val::Enum { variant: v, fields: x }, Val::Enum { variant: w, fields: y }) if v == w && x.len() == y.len() => {
+                Val::Enum { variant: *v, fields: x.iter().zip(y.iter()).map(|(p, q)| Self::merge_val(p, q, c)).collect() }
+            }
+            (Val::Unit, Val::Unit) => Val::Unit,
+            (Val::Ref(p, q), Val::Ref(r, s)) if p == r && q == s => a.clone(),
+            (Val::Str(p), Val::Str(q)) if p == q => a.clone(),
+            (Val::Opaque(p), Val::Opaque(q)) if p == q => a.clone(),
+            (Val::Range { lo, hi, w }, Val::Range { lo: l2, hi: h2, w: w2 }) if lo == l2 && hi == h2 && w == w2 => a.clone(),
+            _ => Val::Top,
+        }
+    }
+
+    /// `on` = state of the arm taken when the condition bit is 1
+    fn merge_states(on: State<'tcx>, off: State<'tcx>, c: Bit, base: &State<'tcx>) -> Option<State<'tcx>> {
+        if on.frames.len() != off.frames.len()
+            || on.cells.len() != off.cells.len()
+            || on.calls != off.calls
+            || on.mayfail != off.mayfail
+            || on.syms != off.syms
+            || on.ncalls != off.ncalls
+            || on.conds.len() != off.conds.len()
+        {
+            return None;
+        }
+        for (f, g) in on.frames.iter().zip(off.frames.iter()) {
+            if f.bb != g.bb || f.stmt != g.stmt || f.base != g.base {
+                return None;
+            }
+        }
+        let mut out = on.clone();
+        out.cells = on.cells.iter().zip(off.cells.iter()).map(|(p, q)| Self::merge_val(p, q, c)).collect();
+        out.assume = base.assume.clone();
+        out.conds = base.conds.clone();
+        Some(out)
+    }
+
+    fn goto(st: &mut State<'tcx>, t: BasicBlock) {
+        let fr = st.frames.last_mut().unwrap();
+        fr.bb = t;
+        fr.stmt = 0;
+    }
+
+    fn step(&mut self, st: &mut State<'tcx>) -> Step<'tcx> {
+        self.steps += 1;
+        if self.steps > MAX_STEPS {
+            self.undecided = Some("budget exceeded (steps)".into());
+            return Step::End;
+        }
+        let (body, bb, stmt, inst) = {
+            let fr = st.frames.last().unwrap();
+            (fr.body, fr.bb, fr.stmt, fr.inst)
+        };
+        let data = &body.basic_blocks[bb];
+        if stmt < data.statements.len() {
+            st.frames.last_mut().unwrap().stmt += 1;
+            match &data.statements[stmt].kind {
+                StatementKind::Assign(b) => {
+                    let (place, rv) = &**b;
+                    let dty = self.mono(inst, place.ty(&body.local_decls, self.tcx).ty);
+                    let v = self.eval_rvalue(st, rv, dty);
+                    match self.resolve_place(st, place) {
+                        PlaceRes::At(c, p) => {
+                            if !Self::write(st, c, &p, v) {
+                                self.undecided = Some(format!("write to unshaped place {:?}", place));
+                                return Step::End;
+                            }
+                        }
+                        _ => {
+                            self.undecided = Some(format!("write through unknown place {:?}", place));
+                            return Step::End;
+                        }
+                    }
+                }
+                StatementKind::SetDiscriminant { place, variant_index } => {
+                    if let PlaceRes::At(c, p) = self.resolve_place(st, place) {
+                        let cur = Self::read(st, c, &p);
+                        let fields = match cur {
+                            Val::Enum { fields, .. } => fields,
+                            _ => Vec::new(),
+                        };
+                        Self::write(st, c, &p, Val::Enum { variant: variant_index.as_u32(), fields });
+                    }
+                }
+                _ => {}
+            }
+            return Step::Cont;
+        }
+        let term = data.terminator();
+        match &term.kind {
+            TerminatorKind::Goto { target }
+            | TerminatorKind::FalseEdge { real_target: target, .. }
+            | TerminatorKind::FalseUnwind { real_target: target, .. }
+            | TerminatorKind::Drop { target, .. } => {
+                Self::goto(st, *target);
+                Step::Cont
+            }
+            TerminatorKind::Return => {
+                let fr = st.frames.pop().unwrap();
+                let rv = st.cells[fr.base].clone();
+                match fr.ret {
+                    None => {
+                        let r = self.render(st, &rv, 0);
+                        self.finish(st, "ret", vec![("v", r)]);
+                        Step::End
+                    }
+                    Some(((c, p), target)) => {
+                        Self::write(st, c, &p, rv);
+                        Self::goto(st, target);
+                        Step::Cont
+                    }
+                }
+            }
+            TerminatorKind::Unreachable => {
+                self.finish(st, "unreachable", vec![]);
+                Step::End
+            }
+            TerminatorKind::Assert { cond, expected, msg, target, .. } => {
+                let c = self.eval_operand(st, cond);
+                let bit = match &c {
+                    Val::Int { bits, .. } if bits.len() == 1 => Self::assumed(st, bits[0]),
+                    _ => Bit::T,
+                };
+                let want = if *expected { Bit::O } else { Bit::Z };
+                let kind = Self::assert_kind_name(msg);
+                let site = format!("{}@{}:bb{}", kind, self.tcx.def_path_str(inst.def_id()), bb.as_usize());
+                if bit == want {
+                    // decided true
+                } else if bit.is_const() {
+                    self.finish(st, "panic", vec![("why", esc("assert")), ("what", esc(&site)), ("und", "0".into())]);
+                    return Step::End;
+                } else {
+                    // undecided: both outcomes are possible as far as the analysis knows
+                    self.finish(st, "panic", vec![("why", esc("assert")), ("what", esc(&site)), ("und", "1".into())]);
+                    st.mayfail.push(esc(&site));
+                    if let Bit::S(s, k, n) = bit {
+                        st.assume.push(((s, k), *expected != n));
+                    }
+                }
+                Self::goto(st, *target);
+                Step::Cont
+            }
+            TerminatorKind::SwitchInt { discr, targets } => {
+                let d = self.eval_operand(st, discr);
+                let bits: Vec<Bit> = match self.as_int(&d) {
+                    Some((_, b)) => b.iter().map(|x| Self::assumed(st, *x)).collect(),
+                    None => {
+                        // an unknown discriminant: explore every successor
+                        let rendered = self.render(st, &d, 0);
+                        let mut succ: Vec<(String, BasicBlock)> = targets.iter().map(|(v, t)| (v.to_string(), t)).collect();
+                        succ.push(("otherwise".into(), targets.otherwise()));
+                        let mut forks = Vec::new();
+                        for (label, t) in succ.into_iter() {
+                            let mut s2 = st.clone();
+                            s2.conds.push(obj(&[("sw", rendered.clone()), ("case", esc(&label))]));
+                            Self::goto(&mut s2, t);
+                            forks.push(s2);
+                        }
+                        return Step::Fork(forks);
+                    }
+                };
+                if let Some(v) = const_of(&bits) {
+                    let t = targets.target_for_value(v);
+                    Self::goto(st, t);
+                    return Step::Cont;
+                }
+                // a two-way branch on one symbolic bit: try to execute both arms and merge at the join
+                if bits.len() == 1 {
+                    if let Bit::S(s, k, n) = bits[0] {
+                        let t_on = targets.target_for_value(1);
+                        let t_off = targets.target_for_value(0);
+                        if t_on != t_off {
+                            if let Some(join) = Self::find_join(body, t_on, t_off) {
+                                let depth = st.frames.len();
+                                let save = (self.outcomes.len(), self.notes.len());
+                                let mut s_on = st.clone();
+                                s_on.assume.push(((s, k), true != n));
+                                Self::goto(&mut s_on, t_on);
+                                let mut s_off = st.clone();
+                                s_off.assume.push(((s, k), false != n));
+                                Self::goto(&mut s_off, t_off);
+                                let r_on = self.run_until(s_on, depth, join);
+                                let r_off = if r_on.is_some() { self.run_until(s_off, depth, join) } else { None };
+                                if let (Some(a), Some(b)) = (r_on, r_off) {
+                                    if let Some(m) = Self::merge_states(a, b, bits[0], st) {
+                                        *st = m;
+                                        return Step::Cont;
+                                    }
+                                }
+                                // fall back to plain forking; discard anything the trial runs recorded
+                                self.outcomes.truncate(save.0);
+                                self.notes.truncate(save.1);
+                                if self.undecided.is_some() {
+                                    return Step::End;
+                                }
+                            }
+                        }
+                    }
+                }
+                let rendered = self.render(st, &Val::Int { signed: false, bits: bits.clone() }, 0);
+                // feasible listed targets: constant bits must agree
+                let feasible = |v: u128| -> bool {
+                    if bits.len() < 128 && v >> bits.len() != 0 {
+                        return false;
+                    }
+                    bits.iter().enumerate().all(|(i, b)| match b {
+                        Bit::Z => (v >> i) & 1 == 0,
+                        Bit::O => (v >> i) & 1 == 1,
+                        _ => true,
+                    })
+                };
+                let listed: Vec<(u128, BasicBlock)> = targets.iter().filter(|(v, _)| feasible(*v)).collect();
+                // is `otherwise` reachable?  count the values the operand can take
+                let unknown = bits.iter().filter(|b| !b.is_const()).count();
+                let mut otherwise_reachable = true;
+                if unknown <= 20 {
+                    let possible = 1u128 << unknown;
+                    let mut distinct: Vec<u128> = listed.iter().map(|(v, _)| *v).collect();
+                    distinct.sort();
+                    distinct.dedup();
+                    if distinct.len() as u128 == possible {
+                        otherwise_reachable = false;
+                        self.notes.push(obj(&[
+                            ("note", esc("switch_otherwise_unreachable")),
+                            ("fn", esc(&self.tcx.def_path_str(inst.def_id()))),
+                            ("free_bits", unknown.to_string()),
+                            ("listed", distinct.len().to_string()),
+                            ("on", rendered.clone()),
+                        ]));
+                    }
+                }
+                let mut forks = Vec::new();
+                for (v, t) in listed.iter() {
+                    let mut s2 = st.clone();
+                    s2.conds.push(obj(&[("sw", rendered.clone()), ("eq", esc(&v.to_string()))]));
+                    if bits.len() == 1 {
+                        if let Bit::S(s, k, n) = bits[0] {
+                            s2.assume.push(((s, k), (*v == 1) != n));
+                        }
+                    }
+                    Self::goto(&mut s2, *t);
+                    forks.push(s2);
+                }
+                if otherwise_reachable {
+                    let mut s2 = st.clone();
+                    let ne: Vec<String> = listed.iter().map(|(v, _)| esc(&v.to_string())).collect();
+                    s2.conds.push(obj(&[("sw", rendered.clone()), ("ne", arr(&ne))]));
+                    if bits.len() == 1 && listed.len() == 1 {
+                        if let Bit::S(s, k, n) = bits[0] {
+                            s2.assume.push(((s, k), (listed[0].0 != 1) != n));
+                        }
+                    }
+                    Self::goto(&mut s2, targets.otherwise());
+                    forks.push(s2);
+                }
+                Step::Fork(forks)
+            }
+            TerminatorKind::Call { func, args, destination, target, .. } => {
+                let fty = self.mono(inst, func.ty(&body.local_decls, self.tcx));
+                let argv: Vec<Val> = args.iter().map(|a| self.eval_operand(st, &a.node)).collect();
+                let dty = self.mono(inst, destination.ty(&body.local_decls, self.tcx).ty);
+                let (callee_name, resolved) = match fty.kind() {
+                    ty::FnDef(did, gargs) => {
+                        let r = Instance::try_resolve(self.tcx, self.env, *did, gargs).ok().flatten();
+                        let name = match r {
+                            Some(i) => self.tcx.def_path_str_with_args(i.def_id(), i.args),
+                            None => self.tcx.def_path_str_with_args(*did, gargs),
+                        };
+                        (name, r)
+                    }
+                    _ => ("<indirect>".to_string(), None),
+                };
+                let depth = st.frames.len();
+                let rendered_args: Vec<String> = argv.iter().map(|a| self.render(st, a, 0)).collect();
+                if target.is_none() {
+                    self.finish(
+                        st,
+                        "panic",
+                        vec![("why", esc("call")), ("what", esc(&callee_name)), ("args", arr(&rendered_args)), ("und", "0".into())],
+                    );
+                    return Step::End;
+                }
+                let target = target.unwrap();
+                let mut inline: Option<Instance<'tcx>> = None;
+                if let Some(ci) = resolved {
+                    if let InstanceKind::Item(cd) = ci.def {
+                        if self.tcx.is_mir_available(cd)
+                            && depth < MAX_DEPTH
+                            && !(self.opaque_depth0 && depth == 1)
+                            && !self.policy_opaque(cd)
+                            && self.tcx.intrinsic(cd).is_none()
+                        {
+                            inline = Some(ci);
+                        }
+                    }
+                }
+                match self.resolve_place(st, destination) {
+                    PlaceRes::At(dc, dp) => {
+                        if let Some(ci) = inline {
+                            let cbody = self.tcx.instance_mir(ci.def);
+                            self.inlined.insert(callee_name.clone());
+                            self.push_frame(st, ci, cbody, argv, Some(((dc, dp), target)));
+                        } else {
+                            let n = st.ncalls;
+                            st.ncalls += 1;
+                            st.calls.push(obj(&[("n", n.to_string()), ("callee", esc(&callee_name)), ("args", arr(&rendered_args))]));
+                            let rv = self.materialize(st, dty, &format!("c{}", n), 0);
+                            Self::write(st, dc, &dp, rv);
+                            Self::goto(st, target);
+                        }
+                        Step::Cont
+                    }
+                    _ => {
+                        self.undecided = Some("call destination is not a tracked place".into());
+                        Step::End
+                    }
+                }
+            }
+            other => {
+                self.undecided = Some(format!("unsupported terminator {:?}", std::mem::discriminant(other)));
+                Step::End
+            }
+        }
+    }
+}
+
+pub enum Step<'tcx> {
+    Cont,
+    Fork(Vec<State<'tcx>>),
+    End,
 }
 
 pub fn _unused(_: FieldIdx, _: Local) {}
